@@ -4,6 +4,8 @@
 # (to show they still pass) and the check, then reverts.  Development aid, not part of any check.
 ID=$1; F=$2; OLD=$3; NEW=$4; shift 4
 M=${MUT_DIR:-/tmp/mut}
+[ -d "$M" ] || git -C /repo worktree add -f "$M" HEAD >/dev/null 2>&1
+TAGN=-$(basename $M)
 export GOFLAGS=-mod=mod GOPROXY=off GOSUMDB=off GOTOOLCHAIN=local
 python3 - "$M/$F" "$OLD" "$NEW" <<'PY' || exit 3
 import sys
@@ -16,5 +18,5 @@ PY
 if [ -z "$SKIP_OWN" ]; then
 ( cd $M/$(dirname $F) && go test -vet=off -count=1 . 2>&1 | tail -3 )
 fi
-( cd /verif && VERIF_REPO=$M VERIF_TAG=-mut ./check $ID "$@" 2>&1 | grep -E "VIOLATION|^OK|INFRA|Fatalf|\.go:[0-9]+:" | head -8 )
+( cd /verif && VERIF_REPO=$M VERIF_TAG=$TAGN ./check $ID "$@" 2>&1 | grep -E "VIOLATION|^OK|INFRA|Fatalf|\.go:[0-9]+:" | head -${MUT_LINES:-8} )
 git -C $M checkout -- . 
